@@ -1327,6 +1327,15 @@ _dispatch_queue_try_acquire_barrier_sync_and_suspend(dispatch_lane_t dq,
 			(suspend_count * DISPATCH_QUEUE_SUSPEND_INTERVAL);
 	uint64_t old_state, new_state;
 
+	// An enqueuer that found the queue non-empty relies on the thread that
+	// made it non-empty to mark the queue dirty; until that happens the state
+	// still looks idle although items are queued. Taking the barrier here
+	// would run this work item ahead of items whose submission has already
+	// returned (same check as in _dispatch_queue_try_reserve_sync_width).
+	if (unlikely(dq->dq_items_tail)) {
+		return false;
+	}
+
 	return os_atomic_rmw_loop2o(dq, dq_state, old_state, new_state, acquire, {
 		uint64_t role = old_state & DISPATCH_QUEUE_ROLE_MASK;
 		if (old_state != (init | role)) {
